@@ -348,6 +348,9 @@ func (c15) Run(plan interface{}, schedSeed uint64, replay []simrt.Choice, lenien
 						all = append(all, b...)
 						pos = len(all)
 						wrote = true
+						for i := range b {
+							b[i] = 0xEE // the caller's buffer is the caller's again
+						}
 					}
 				case "toedge":
 					for _, b := range bounds {
@@ -513,6 +516,10 @@ func (c15) Run(plan interface{}, schedSeed uint64, replay []simrt.Choice, lenien
 					err = q.WriteBytes(b)
 				}
 				write(b)
+				// the caller's buffer is the caller's again once the write has returned (io.Writer: "must not retain p")
+				for i := range b {
+					b[i] = 0xEE
+				}
 			case "w8":
 				b := gen(1)
 				switch o.Alt {
